@@ -232,4 +232,126 @@ def arrTrace (ew : Nat) (ops : List (ArrOp Nat)) : List Ev := traceOf (arrProgra
 def strTrace (w : Nat) (ops : List StrOp) : List Ev := traceOf (strProgram w ops strInit)
 def ssTrace (P : Policy) (w : Nat) (ops : List SsOp) : List Ev := traceOf (ssProgram P w ops ssInit)
 
+/-! ### Array<String<char>> — owning items: every item is a `String` that owns at most one block
+
+Ownership slots are again registers of `blks`: `0..2` the array blocks, `tmpT`/`tmpU`/`tmpV` temporaries
+(`tmpV` holds the destination's old block while a move assignment installs the new one), and a fresh
+slot number (from `6`) for every item ever constructed.  `items r` lists the slots (with the length of
+the string, 0 for a default-constructed null string) of the constructed items of array `r` in order.
+Raw relocation of items (`resize`, `+= Array&&`) keeps their slots.  Copy construction of an item is
+`refresh <fresh slot> (len+1)` (`String(const String&)` always allocates), move construction from the
+caller's temporary is `take <fresh slot> tmpU`, `Dispose` is `drop` of each slot in order.
+The harness builds item `x` as the string `"v<x>"` and rotates the entry point by the position `c` of
+the operation (`c % 4` for `push`: 0,2 copy, 1,3 move). -/
+
+def tmpV : Nat := 5
+def firstItemSlot : Nat := 6
+
+structure OW where
+  items : Nat → List (Nat × Nat)
+  nextSlot : Nat
+
+def OW.init : OW := ⟨fun _ => [], firstItemSlot⟩
+
+/-- length of the harness' item string `"v<x>"` -/
+def itemLen (x : Nat) : Nat := 1 + (Nat.repr x).length
+
+def dropItems (l : List (Nat × Nat)) : List Prim := l.map fun it => Prim.drop it.1
+
+/-- copy-construct the items `src` into fresh slots starting at `s0` -/
+def copyItems (src : List (Nat × Nat)) (s0 : Nat) : List Prim × List (Nat × Nat) :=
+  ((List.range src.length).zip src |>.map fun (k, it) => Prim.refresh (s0 + k) (it.2 + 1),
+   (List.range src.length).zip src |>.map fun (k, it) => (s0 + k, it.2))
+
+def defaultItems (n s0 : Nat) : List (Nat × Nat) := (List.range n).map fun k => (s0 + k, 0)
+
+def ew16 : Nat := 16   -- sizeof(String<char>)
+
+def arrOwnPrims (c : Nat) (op : ArrOp Nat) (st : ArrSt Nat) (ow : OW) : List Prim × OW :=
+  let it := ow.items
+  let ns := ow.nextSlot
+  let reset := fun (r : Nat) => dropItems (it r) ++ [Prim.drop r]
+  match op with
+  | .push r x =>
+    let a := st r
+    let grow := when (a.size == a.cap) (renew r (((if a.cap = 0 then 1 else a.cap) * 2) * ew16))
+    let L := itemLen x
+    if c % 2 = 0 then
+      ([.refresh tmpU (L + 1)] ++ grow ++ [.refresh ns (L + 1), .drop tmpU], ⟨setR it r (it r ++ [(ns, L)]), ns + 1⟩)
+    else
+      ([.refresh tmpU (L + 1)] ++ grow ++ [.take ns tmpU], ⟨setR it r (it r ++ [(ns, L)]), ns + 1⟩)
+  | .appC r s =>
+    let n := (st r).size + (st s).size
+    let (ps, ni) := copyItems (it s) ns
+    (when (decide (n > (st r).cap)) (renew r (n * ew16)) ++ ps, ⟨setR it r (it r ++ ni), ns + (it s).length⟩)
+  | .appM r s =>
+    let moved := it s
+    if (st r).cap = 0 then ([.take r s], ⟨setR (setR it r moved) s [], ns⟩)
+    else
+      let n := (st r).size + (st s).size
+      (when (decide (n > (st r).cap)) (renew r (n * ew16)) ++ [.drop s], ⟨setR (setR it r (it r ++ moved)) s [], ns⟩)
+  | .asgC r s =>
+    if r = s then ([], ow) else
+    let (ps, ni) := copyItems (it s) ns
+    (when ((st s).size != 0) [Prim.refresh tmpT ((st s).size * ew16)] ++ ps ++
+       [.take tmpV r, .take r tmpT] ++ dropItems (it r) ++ [.drop tmpV],
+     ⟨setR it r ni, ns + (it s).length⟩)
+  | .asgM r s =>
+    if r = s then ([], ow) else
+    ([.take tmpV r, .take r s] ++ dropItems (it r) ++ [.drop tmpV], ⟨setR (setR it r (it s)) s [], ns⟩)
+  | .ctorC r s =>
+    let (ps, ni) := copyItems (it s) ns
+    (when ((st s).size != 0) [Prim.refresh tmpT ((st s).size * ew16)] ++ ps ++ reset r ++ [.take r tmpT],
+     ⟨setR it r ni, ns + (it s).length⟩)
+  | .ctorM r s =>
+    if r = s then ([], ow) else (reset r ++ [.take r s], ⟨setR (setR it r (it s)) s [], ns⟩)
+  | .ctorN r n init =>
+    (when (n != 0) [Prim.refresh tmpT (n * ew16)] ++ reset r ++ [.take r tmpT],
+     ⟨setR it r (if init then defaultItems n ns else []), if init then ns + n else ns⟩)
+  | .clear r => (dropItems (it r), ⟨setR it r [], ns⟩)
+  | .reset r => (reset r, ⟨setR it r [], ns⟩)
+  | .detach r => (reset r, ⟨setR it r [], ns⟩)
+  | .reserve r n init =>
+    (reset r ++ when (n != 0) [Prim.refresh r (n * ew16)],
+     ⟨setR it r (if init then defaultItems n ns else []), if init then ns + n else ns⟩)
+  | .resize r n =>
+    if n ≠ 0 then (dropItems ((it r).drop n) ++ renew r (n * ew16), ⟨setR it r ((it r).take n), ns⟩)
+    else (reset r, ⟨setR it r [], ns⟩)
+  | .resizeInit r n =>
+    if n ≠ 0 then
+      (dropItems ((it r).drop n) ++ renew r (n * ew16),
+       ⟨setR it r ((it r).take n ++ defaultItems (n - (it r).length) ns), ns + (n - (it r).length)⟩)
+    else (reset r, ⟨setR it r [], ns⟩)
+  | .expect r n =>
+    let m := n + (st r).size
+    (when (decide (m > (st r).cap)) (renew r (m * ew16)), ow)
+  | .compress r =>
+    if (st r).size ≠ 0 then (renew r ((st r).size * ew16), ow) else (reset r, ⟨setR it r [], ns⟩)
+  | .drop r n =>
+    if n ≤ (st r).size then
+      (dropItems ((it r).drop ((it r).length - n)), ⟨setR it r ((it r).take ((it r).length - n)), ns⟩)
+    else ([], ow)
+
+/-- Primitives of a whole program (operation positions count from 1, like the harness' counter) and the
+item table at its end. -/
+def arrOwnProgram : List (ArrOp Nat) → Nat → ArrSt Nat → OW → List Prim × OW
+  | [], _, _, ow => ([], ow)
+  | op :: ops, c, st, ow =>
+    let (p1, ow1) := arrOwnPrims c op st ow
+    let (p2, ow2) := arrOwnProgram ops (c + 1) (op.step 0 st).1 ow1
+    (p1 ++ p2, ow2)
+
+/-- Destruction of the three arrays: items in order, then the block. -/
+def ownFinal (ow : OW) : List Prim :=
+  [0, 1, 2].flatMap fun r => dropItems (ow.items r) ++ [Prim.drop r]
+
+/-- Trace of primitives `ps`, the destruction `fin`, and finally a `drop` of every slot mentioned at all
+(those emit nothing when the compiled program is right: every other slot is already null). -/
+def closedTrace (ps fin : List Prim) : List Ev :=
+  (execAll ((ps ++ fin) ++ ((ps ++ fin).flatMap Prim.regs).map Prim.drop) LW.init).2
+
+def arrOwnTrace (ops : List (ArrOp Nat)) : List Ev :=
+  let (ps, ow) := arrOwnProgram ops 1 arrInit OW.init
+  closedTrace ps (ownFinal ow)
+
 end Qentem.SeqLedger
